@@ -53,11 +53,14 @@ def make_image(producer, length):
 
 def run_reads(image, reads, log=None):
     """executes a read history under a wall-clock backstop"""
-    from ..steps import WallLimit, StepBudgetExceeded
+    from ..steps import WallLimit, StepBudgetExceeded, hang_seen, too_many_hangs
+    if too_many_hangs():
+        return [(reads[0] if reads else None, ("error", "DidNotTerminate", "not executed: three earlier histories did not terminate"))], SimFile(image)
     try:
         with WallLimit(30.0):
             return _run_reads(image, reads, log)
     except StepBudgetExceeded as ex:
+        hang_seen()
         return [(reads[0] if reads else None, ("error", "DidNotTerminate", str(ex)[:100]))], SimFile(image)
 
 
@@ -110,14 +113,17 @@ def judge_reads(image, reads, log=None):
 
 
 def run_validate(image):
-    from ..steps import WallLimit, StepBudgetExceeded
+    from ..steps import WallLimit, StepBudgetExceeded, hang_seen, too_many_hangs
     m = sut.load()
     out = io.BytesIO()
+    if too_many_hangs():
+        return ("foreign", "DidNotTerminate", "not executed: three earlier runs did not terminate")
     try:
         with WallLimit(20.0):
             m["mciipm"].unblock_1014(SimFile(image, name="disk"), out)
         return ("ok", out.getvalue())
     except StepBudgetExceeded as ex:
+        hang_seen()
         return ("foreign", "DidNotTerminate", str(ex)[:100])
     except m["MciIpmDataError"] as ex:
         return ("MciIpmDataError", str(ex)[:100])
